@@ -54,3 +54,72 @@ def diff_sets(a, b, limit=5):
     miss = sorted(a - b, key=repr)[:limit]
     extra = sorted(b - a, key=repr)[:limit]
     return miss, extra
+
+
+# ------------------------------------------------------------------------------------------------
+# metamorphic / differential comparison of two ways of running (almost) the same program
+
+def run_cfg(case, cfg, timeout=30):
+    text = cfg.get("program", case["program"])
+    res = run_program(text, case.get("facts"), args=cfg.get("args", ()), env=cfg.get("env"), timeout=timeout)
+    return res
+
+
+def classify_failure(res, label, case, accept_diag=None):
+    """a run of an accepted program must exit 0"""
+    rr = res.rr
+    if rr.timeout:
+        raise Inconclusive("timeout:" + label)
+    if rr.rc != 0:
+        if accept_diag and any(d in rr.err for d in accept_diag):
+            from .common import Discard
+            raise Discard("rejected:" + label)
+        raise Violation("%s run failed: rc=%s\n%s" % (label, rr.rc, rr.err[-1200:]), {"case": case})
+
+
+def compare_outputs(a, b, rels=None, la="base", lb="variant"):
+    msgs = []
+    names = rels if rels is not None else sorted(set(a) | set(b))
+    for n in names:
+        x, y = a.get(n), b.get(n)
+        if x is None or y is None:
+            if x is not y:
+                msgs.append("%s: output file present only in %s" % (n, la if x is not None else lb))
+            continue
+        sx, sy = sorted(x), sorted(y)
+        if sx != sy:
+            setx, sety = set(x), set(y)
+            miss, extra = sorted(setx - sety)[:5], sorted(sety - setx)[:5]
+            if miss or extra:
+                msgs.append("%s: only in %s %r; only in %s %r" % (n, la, miss, lb, extra))
+            else:
+                msgs.append("%s: same tuples but different multiplicities (%d vs %d lines)" % (n, len(x), len(y)))
+        elif len(set(x)) != len(x):
+            msgs.append("%s: duplicate tuples in both outputs" % n)
+    return msgs
+
+
+def differential(case, timeout=30, accept_diag=None):
+    """case: program, facts, base{args,env}, variant{args,env[,program]}, relations (optional)"""
+    a = run_cfg(case, case["base"], timeout)
+    classify_failure(a, "base", case)
+    b = run_cfg(case, case["variant"], timeout)
+    classify_failure(b, "variant", case, accept_diag)
+    msgs = compare_outputs(a.outputs, b.outputs, case.get("relations"))
+    if msgs:
+        raise Violation("outputs differ between base %r and variant %r:\n%s" % (
+            case["base"], {k: v for k, v in case["variant"].items() if k != "program"}, "\n".join(msgs)), {"case": case})
+    return a, b
+
+
+def show(text, facts, what, args=(), env=None, timeout=20):
+    """souffle --show=<what> (no evaluation); returns stdout or None"""
+    with Scratch("show") as d:
+        files = {"p.dl": text}
+        for k, v in (facts or {}).items():
+            files[os.path.join("facts", k)] = v
+        write_files(d, files)
+        rr = souffle(["--show=" + what, "-F", "facts"] + list(args) + ["p.dl"], cwd=d, timeout=timeout, env=env)
+        if rr.timeout or rr.rc != 0:
+            return None
+        return rr.out
